@@ -1,2 +1,4 @@
+pub mod closest;
 pub mod hash;
 pub mod id;
+pub mod rtable;
